@@ -169,8 +169,21 @@ fn run_seq(path: &str, seed: u64, n_ops: u64) {
     let mut committed: BTreeSet<MRec> = BTreeSet::new();
     committed.insert((vec![], "SOA".into(), 1));
     let nzf = 3 + rng.below(10);
-    for _ in 0..nzf {
-        let r = pick_rec(&mut rng, &uni);
+    // most zones carry a delegation with in-domain glue (a. NS a.a., a.a. A) and
+    // sometimes a DS, so that referrals, DS-at-cut and glue are exercised
+    let mut planned: Vec<MRec> = vec![];
+    if seed % 4 != 3 {
+        planned.push((vec![vec![LA]], "NS".into(), 1));
+        planned.push((vec![vec![LA], vec![LA]], "A".into(), 1 + rng.below(3)));
+        if rng.chance(1, 2) {
+            planned.push((vec![vec![LA]], "DS".into(), 1));
+        }
+    }
+    if rng.chance(1, 3) {
+        planned.push((vec![vec![STAR], vec![LB]], "CNAME".into(), 2));
+    }
+    for i in 0..(nzf + planned.len() as u64) {
+        let r = if (i as usize) < planned.len() { planned[i as usize].clone() } else { pick_rec(&mut rng, &uni) };
         if committed.contains(&r) {
             continue;
         }
